@@ -113,8 +113,8 @@ theorem lcEff_none {g : G} (h : g.m.lastEvents.peripheral = none) (i : Nat) : lc
 theorem toList_none {α : Type} {o : Option α} (h : o = none) : o.toList = [] := by subst h; rfl
 
 theorem inv14_step {fp : FdlParams} (hfp : FpOk fp) {g g' : G} (hI : Inv fp g) (h4 : Inv14 g) (op : Op)
-    (h : gstep fp g op = .ok g') (hu : g'.tainted = false) : Inv14 g' := by
-  have hu0 := tainted_mono op h hu
+    (h : gstep fp g op = .ok g') (hu : g'.staleEv = false) : Inv14 g' := by
+  have hu0 := staleEv_mono op h hu
   -- what `collected` gives for the state before a callback
   have before : (g.collected && !g.dirty) = true →
       g.m.lastEvents.peripheral = none ∧ g.produced = g.taken ∧
@@ -205,7 +205,12 @@ theorem inv14_step {fp : FdlParams} (hfp : FpOk fp) {g g' : G} (hI : Inv fp g) (
           simp only [lcEff, G.polled, hev, hij, if_false]
           rw [upd_other _ _ (fun h => hij h.symm)]
   | reply a t =>
-    obtain ⟨index, i, p, p', ev, ho, hcy, hc, hpa, hal, hspec, rfl⟩ := reply_form hI hu0 h
+    have hst : Stale g a g' → Inv14 g' := by
+      rintro ⟨_, _, _, _, _, _, _, rfl⟩
+      exact ⟨h4.clean, h4.exact, h4.lc⟩
+    rcases reply_cases hI h with hdel | hs
+    case inr => exact hst hs
+    obtain ⟨index, i, p, p', ev, ho, hcy, hc, hpa, hal, hspec, rfl⟩ := hdel
     have hi := (curSlot_spec hc).2.2.1
     refine ⟨(by intro hd; cases hd), ?_, ?_⟩
     · intro hcc
@@ -258,7 +263,7 @@ theorem inv14_step {fp : FdlParams} (hfp : FpOk fp) {g g' : G} (hI : Inv fp g) (
           have hpend : ∀ he, g.m.lastEvents.peripheral = some he → he.index ≠ slot := by
             intro he hhe hidx
             have h2 := hu.2
-            simp [resetTaints, hhe, hidx] at h2
+            simp [resetStaleEv, hhe, hidx] at h2
           refine ⟨h4.clean, h4.exact, ?_⟩
           intro hcc i q hq
           simp only at hq
